@@ -35,6 +35,7 @@ fn num(s: &str) -> u32 {
 pub fn run(sc: &Scenario, sim: &Shared) {
     sim.borrow_mut().big = true;
     sim.borrow_mut().fifo = sc.fifo;
+    sim.borrow_mut().slow = sc.slow;
     let mk_out = |k: PinKind| MockOut(sim.clone(), k);
     let peris = Peripherals {
         spi: MockBus(sim.clone()),
@@ -46,10 +47,10 @@ pub fn run(sc: &Scenario, sim: &Shared) {
         m2s2_dc: mk_out(PinKind::Dc2(1)),
         m1s1_rst: mk_out(PinKind::Rst2(0)),
         m2s2_rst: mk_out(PinKind::Rst2(1)),
-        m1_busy: MockIn(sim.clone()),
-        s1_busy: MockIn(sim.clone()),
-        m2_busy: MockIn(sim.clone()),
-        s2_busy: MockIn(sim.clone()),
+        m1_busy: MockIn(sim.clone(), 0),
+        s1_busy: MockIn(sim.clone(), 1),
+        m2_busy: MockIn(sim.clone(), 2),
+        s2_busy: MockIn(sim.clone(), 3),
     };
     let mut drv = EpdDriver::new(peris, MockDelay(sim.clone()));
     for (i, a) in sc.ops.iter().enumerate() {
